@@ -959,7 +959,15 @@ def clone_module(mod, overrides, subst=None, builtins_extra=None, importer=None)
         if depth > 3:
             return o
         if isinstance(o, dict):
-            return {sub(k, depth + 1) if not isinstance(k, (str, int, float, bool, type(None))) else k: sub(v, depth + 1) for k, v in o.items()}
+            import copy as _cp
+            new = _cp.copy(o)          # keeps the container type (OrderedDict, defaultdict ...)
+            try:
+                new.clear()
+            except Exception:
+                new = {}
+            for k, v in o.items():
+                new[sub(k, depth + 1) if not isinstance(k, (str, int, float, bool, type(None), tuple)) else k] = sub(v, depth + 1)
+            return new
         if isinstance(o, list):
             return [sub(v, depth + 1) for v in o]
         if isinstance(o, tuple):
